@@ -180,6 +180,9 @@ def run(ctx):
 
     # ---------------------------------------------------------------- P3
     handover_rule(ctx, esc, 'P3')
+    # the inherited CHILD_SAs are deleted in the kernel with the successor's endpoints: they must be this IKE_SA's
+    from .c01 import successor_construction
+    successor_construction(ctx, 'P3')
 
     # ---------------------------------------------------------------- P4
     common.deleted_observed(ctx, esc, 'P4')
